@@ -120,6 +120,110 @@ func libToLib(rng *rand.Rand, call, pw string, how string) rec.Event {
 	return ev
 }
 
+// sharedDialer: two dials through one Dialer value; a dial_timeout parameter of the first URL is that dial's business only.
+func sharedDialer(rng *rand.Rand) rec.Event {
+	ev := rec.Event{"op": "Dial", "behaviour": "silent (after a dial with dial_timeout=8s through the same Dialer)", "how": "Dialer.DialURL", "deadlineMs": 700,
+		"returned": false, "elapsedMs": 0, "gotConn": false, "streamOK": true}
+	good, err := telnet.Listen("127.0.0.1:0")
+	if err != nil {
+		ev["err"] = err.Error()
+		return ev
+	}
+	defer good.Close()
+	go func() {
+		for {
+			c, err := good.Accept()
+			if err != nil {
+				return
+			}
+			c.Close()
+		}
+	}()
+	silent, err := net.Listen("tcp", "127.0.0.1:0")
+	if err != nil {
+		ev["err"] = err.Error()
+		return ev
+	}
+	defer silent.Close()
+	go func() {
+		for {
+			c, err := silent.Accept()
+			if err != nil {
+				return
+			}
+			defer c.Close()
+		}
+	}()
+	d := &telnet.Dialer{Timeout: 700 * time.Millisecond}
+	u1, _ := transport.ParseURL(fmt.Sprintf("telnet://LA5NTA:pw@%s/wl2k?dial_timeout=8s", good.Addr().String()))
+	if c, err := d.DialURL(u1); err == nil {
+		c.Close()
+	}
+	u2, _ := transport.ParseURL(fmt.Sprintf("telnet://LA5NTA:pw@%s/wl2k", silent.Addr().String()))
+	done := make(chan struct{})
+	start := time.Now()
+	go func() {
+		if c, err := d.DialURL(u2); err == nil {
+			c.Close()
+		}
+		close(done)
+	}()
+	select {
+	case <-done:
+		ev["returned"] = true
+	case <-time.After(4700 * time.Millisecond):
+	}
+	ev["elapsedMs"] = int(time.Since(start) / time.Millisecond)
+	return ev
+}
+
+// writeThenClose: the dialler sends a large payload and closes at once; a slow reader on the accepted side still gets all of it.
+func writeThenClose(rng *rand.Rand) rec.Event {
+	ev := rec.Event{"op": "Conn", "kind": "dialler writes 4 MiB and closes at once", "call": "\"LA5NTA\"", "established": false, "toAcceptorOK": false, "toDiallerOK": true,
+		"remoteCallOK": true}
+	ln, err := telnet.Listen("127.0.0.1:0")
+	if err != nil {
+		ev["err"] = err.Error()
+		return ev
+	}
+	defer ln.Close()
+	ch := make(chan net.Conn, 1)
+	go func() { c, _ := ln.Accept(); ch <- c }()
+	d, err := telnet.DialTimeout(ln.Addr().String(), "LA5NTA", "pw", 3*time.Second)
+	if err != nil {
+		ev["err"] = err.Error()
+		return ev
+	}
+	var a net.Conn
+	select {
+	case a = <-ch:
+	case <-time.After(3 * time.Second):
+	}
+	if a == nil {
+		d.Close()
+		ev["err"] = "Accept did not return"
+		return ev
+	}
+	defer a.Close()
+	ev["established"] = true
+	payload := payloadOf(rng, 4<<20)
+	go func() { d.Write(payload); d.Close() }()
+	var got []byte
+	buf := make([]byte, 64<<10)
+	a.SetReadDeadline(time.Now().Add(15 * time.Second))
+	for {
+		n, err := a.Read(buf)
+		got = append(got, buf[:n]...)
+		if err != nil {
+			break
+		}
+		time.Sleep(2 * time.Millisecond) // a slow reader
+	}
+	ev["toAcceptorOK"] = bytes.Equal(got, payload)
+	ev["got"], ev["want"] = len(got), len(payload)
+	return ev
+}
+
 // twoLogins: two stations are logged in to the same listener at the same time; each accepted connection carries its own
 // station's stream (and reports its own callsign).
 func twoLogins(rng *rand.Rand) rec.Event {
@@ -402,7 +506,8 @@ func dialAgainst(rng *rand.Rand, behaviour string, deadline time.Duration, how s
 				err = e
 				break
 			}
-			c, err = telnet.Dialer{}.DialURL(u)
+			d := telnet.Dialer{}
+			c, err = d.DialURL(u)
 		default:
 			ctx, cancel := context.WithTimeout(context.Background(), deadline)
 			defer cancel()
@@ -474,7 +579,7 @@ func Main(args []string) int {
 			mu.Unlock()
 		}()
 	}
-	calls := []string{"LA5NTA", "la5nta-7", "N0CALL", "A", "call with space", "blåbær", strings.Repeat("X", 1000), "tab\tcall", "a@b.c", "LA5NTA%Test", "%s%d%%"}
+	calls := []string{"LA5NTA", "la5nta-7", "N0CALL", "A", "", "call with space", "blåbær", strings.Repeat("X", 1000), "tab\tcall", "a@b.c", "LA5NTA%Test", "%s%d%%"}
 	pws := []string{"CMSTelnet", "", "pass word", "pässword", strings.Repeat("p", 1000), "x", "100%", "%v%n%", strings.Repeat("4k", 2048), strings.Repeat("L", 20000)}
 	hows := []string{"Dial", "DialTimeout", "DialContext", "DialURL", "DialTimeout-idle", "DialContext-idle"}
 	for i := 0; i < *n; i++ {
@@ -503,6 +608,8 @@ func Main(args []string) int {
 	}
 	emit(func(r *rand.Rand) rec.Event { return twoLogins(r) })
 	emit(func(r *rand.Rand) rec.Event { return twoLogins(r) })
+	emit(func(r *rand.Rand) rec.Event { return sharedDialer(r) })
+	emit(func(r *rand.Rand) rec.Event { return writeThenClose(r) })
 	behaviours := []string{"trickle-banner", "trickle-callsign-prompt", "silent", "partial-prompt", "garbage", "close-early", "stall-after-callsign", "normal", "split-prompts", "coalesced-payload", "motd-first"}
 	dhows := []string{"DialContext", "DialTimeout", "DialURLContext", "dial_timeout"}
 	for bi, b := range behaviours {
